@@ -272,6 +272,13 @@ theorem reader_fields_do_not_pop :
       ["tryAllParsers/func0", "quotedQualifierParser/func0", "literalQualifierValueParser/func0",
        "literalQualifierParser/func0"] := by decide +kernel
 
+/-- `errGenBankExtra` is returned by `genbankExtraFieldParser` and by nothing else: the error tag `extra`
+of `Gts.Bridge.tryAllParsers_eq` belongs to the last sub-parser alone, so `dig(err) != errGenBankExtra`
+in `GenBankParser` separates "skip this line" from "the record fails" the way the model's `Step` does -/
+theorem reader_extra_error_unique :
+    (GbReader.fns.filter fun f => f.2.any fun l => l.2.1 == "return" && l.2.2 == "errGenBankExtra").map (·.1) =
+      ["genbankExtraFieldParser/func0"] := by decide +kernel
+
 /-- the depth handed to every sub-parser is the width of "LOCUS" plus the blanks behind it: child 0 of
 the LOCUS result is member 1 of the `Seq` (`pars.Spaces`), member 0 is the five-byte literal -/
 theorem reader_locus_depth :
